@@ -16,14 +16,6 @@ namespace Mobius.C09
 
 variable (ref fc : Nat) (i : InfoFork) (d r : Bytes)
 
-/-- Hypotheses on what the client sends: a well-formed information fork, fork count 2 or 3 (any
-    16-bit value is allowed), sizes that fit the 32-bit size fields. -/
-structure ClientOK (fc : Nat) (i : InfoFork) (d r : Bytes) : Prop where
-  info : i.WFup
-  fc : fc < 65536
-  data : d.length < 4294967296
-  rsrc : r.length < 4294967296
-
 /-- **A cut at any byte of the upload stream** (inside the header included) leaves exactly the
     data-fork bytes that arrived, and the stream is reported complete iff all of it arrived. -/
 theorem cut_leaves_exact_prefix (h : ClientOK fc i d r) (n : Nat) :
@@ -42,18 +34,12 @@ theorem attempt_step (h : ClientOK fc i d r) (k cut : Nat) (inc : Option Bytes)
       else { final := none, inc := some (d.take (k + (cut - 16 - (56 + i.size)))) } :=
   uploadAttempt_step ref fc i d r k cut inc h.info h.fc h.data h.rsrc hk hinc
 
-theorem foldl_good (h : ClientOK fc i d r) (cuts : List Nat) (st : UpState) (hg : st.Good d) :
-    (cuts.foldl (uploadAttempt ref fc i d r) st).Good d := by
-  induction cuts generalizing st with
-  | nil => exact hg
-  | cons c cs ih => exact ih _ (uploadAttempt_good ref fc i d r st c h.info h.fc h.data h.rsrc hg)
-
 /-- **Invariant over every history of cuts and resumes**: after any sequence of attempts, cut at any
     bytes, either nothing is published and the partial file holds exactly a prefix of the client's
     data, or the file is published with exactly the client's bytes and no partial file remains. -/
 theorem invariant_all_histories (h : ClientOK fc i d r) (cuts : List Nat) :
     (uploadRun ref fc i d r cuts).Good d :=
-  foldl_good ref fc i d r h cuts {} (UpState.good_init d)
+  uploadRun_foldl_good ref fc i d r h cuts {} (UpState.good_init d)
 
 /-- While unpublished, the final name does not exist (atomic publication): in every reachable state
     a final file, if present, is the complete data. -/
@@ -82,7 +68,7 @@ theorem uncut_attempt_completes (h : ClientOK fc i d r) (cuts : List Nat) (c : N
   unfold uploadRun
   rw [List.foldl_append]
   simp only [List.foldl_cons, List.foldl_nil]
-  have hg := foldl_good ref fc i d r h cuts {} (UpState.good_init d)
+  have hg := uploadRun_foldl_good ref fc i d r h cuts {} (UpState.good_init d)
   generalize cuts.foldl (uploadAttempt ref fc i d r) {} = st at hg
   rcases hg with ⟨hf, k, hk, hinc⟩ | ⟨hf, hinc⟩
   · have hst : st = { final := none, inc := st.inc } := by cases st; simp at hf; simp [hf]
